@@ -120,9 +120,9 @@ def lean_build(targets, timeout=3000):
     return r.returncode == 0, r.stdout, time.time() - t0
 
 
-def lean_audit(prop: str, timeout=1800):
-    """Run Audit/<prop>.lean (a list of `#print axioms thm`). Returns (theorems: {name: [axioms]}, raw)."""
-    f = LEAN_DIR / "Audit" / f"{prop}.lean"
+def lean_audit(prop: str, timeout=1800, suffix=""):
+    """Run Audit/<prop><suffix>.lean (a list of `#print axioms thm`). Returns (wanted, {name: [axioms]}, raw, rc)."""
+    f = LEAN_DIR / "Audit" / f"{prop}{suffix}.lean"
     if not f.exists():
         raise Infra(f"missing {f}")
     r = _run(["lake", "env", "lean", str(f.relative_to(LEAN_DIR))], LEAN_DIR, timeout)
